@@ -301,18 +301,38 @@ def clear_caches() -> None:
             if f is not None and hasattr(f, "cache_clear"):
                 found.append(f)
         _clearables = found
-        # module-level mutable containers of the library (hand-written memos, registries): their content as it is now
-        # (fresh after setup) is what every later path starts from
+    for f in _clearables:
+        f.cache_clear()
+    restore_containers()
+
+
+_nmods2 = -1
+
+
+def restore_containers() -> None:
+    """Module-level and class-level mutable containers of the library (hand-written memos, registries) are put back to the
+    content they had when first seen (fresh after setup).  Called at the start of EVERY symbolic path (chpatch hooks
+    StateSpace creation) and by clear_caches(): otherwise state written on one path leaks into the next one and
+    counterexamples do not replay."""
+    global _nmods2
+    if _nmods2 != len(sys.modules):
+        _nmods2 = len(sys.modules)
         for modname, mod in list(sys.modules.items()):
             if mod is None or not (modname.startswith("spil.") and not modname.startswith("spil.conf")):
                 continue
             for k, v in list(vars(mod).items()):
-                if type(v) in (dict, list, set) and not k.startswith("__") and id(v) not in _snap_ids:
-                    _snap_ids.add(id(v))
-                    _snapshots.append((v, v.copy()))
-    for f in _clearables:
-        f.cache_clear()
+                if k.startswith("__"):
+                    continue
+                if type(v) in (dict, list, set):
+                    if id(v) not in _snap_ids:
+                        _snap_ids.add(id(v))
+                        _snapshots.append((v, v.copy()))
+                elif isinstance(v, type) and getattr(v, "__module__", "") == modname:
+                    for ck, cv in list(vars(v).items()):
+                        if type(cv) in (dict, list, set) and not ck.startswith("__") and id(cv) not in _snap_ids:
+                            _snap_ids.add(id(cv))
+                            _snapshots.append((cv, cv.copy()))
     for obj, was in _snapshots:
-        if obj != was:
+        if len(obj) != len(was) or obj != was:
             obj.clear()
             obj.extend(was) if type(obj) is list else obj.update(was)
